@@ -75,18 +75,17 @@ Inductive val := VUnit | VConn (c : nat) | VRows (l : list Z) | VBool (b : bool)
 
 (* ---------------- the driver: connections with an open/transaction flag, and the data ------------- *)
 Record dconn := mkd { d_open : bool; d_txn : bool; d_rows : list Z }.
-Record world := mkw { conns : list dconn; committed : list Z; sqllog : list (nat * Z) }.   (* sqllog: statements seen by SQLite, newest first *)
+Record world := mkw { conns : nat -> dconn; nconn : nat; committed : list Z; sqllog : list (nat * Z) }.
+(* conns: every connection ever created, by creation index (< nconn); sqllog: statements seen by SQLite, newest first *)
 
 Definition dead : dconn := mkd false false [].
-Definition getc (w : world) (c : nat) : dconn := nth c (conns w) dead.
-Fixpoint upd_nth {A} (n : nat) (x : A) (l : list A) : list A :=
-  match l, n with
-  | [], _ => []
-  | _ :: r, O => x :: r
-  | a :: r, S n' => a :: upd_nth n' x r
-  end.
-Definition setc (w : world) (c : nat) (d : dconn) : world := mkw (upd_nth c d (conns w)) (committed w) (sqllog w).
-Definition wlog (w : world) (c : nat) (code : Z) : world := mkw (conns w) (committed w) ((c, code) :: sqllog w).
+Definition getc (w : world) (c : nat) : dconn := conns w c.
+Definition setc (w : world) (c : nat) (d : dconn) : world :=
+  mkw (fun c' => if Nat.eqb c' c then d else conns w c') (nconn w) (committed w) (sqllog w).
+Definition wlog (w : world) (c : nat) (code : Z) : world := mkw (conns w) (nconn w) (committed w) ((c, code) :: sqllog w).
+Definition set_committed (w : world) (l : list Z) : world := mkw (conns w) (nconn w) l (sqllog w).
+Definition new_conn (w : world) (d : dconn) : world :=
+  mkw (fun c' => if Nat.eqb c' (nconn w) then d else conns w c') (S (nconn w)) (committed w) (sqllog w).
 
 Definition visible (w : world) (c : nat) : list Z :=
   if d_txn (getc w c) then d_rows (getc w c) else committed w.
@@ -97,7 +96,7 @@ Definition closed_conn (w : world) (c : nat) : world := setc w c dead.
 
 Definition io_step (w : world) (i : io) : (val + exn) * world :=
   match i with
-  | IoConnect => (inl (VConn (length (conns w))), mkw (conns w ++ [mkd true false []]) (committed w) (sqllog w))
+  | IoConnect => (inl (VConn (nconn w)), new_conn w (mkd true false []))
   | IoSetup c | IoCursor c | IoCursorClose c =>
       if d_open (getc w c) then (inl VUnit, w) else (inr EDead, w)
   | IoExec c s =>
@@ -109,13 +108,13 @@ Definition io_step (w : world) (i : io) : (val + exn) * world :=
       | SInsert v =>
           if existsb (Z.eqb v) (visible w c) then (inr EIntegrity, wlog w c 1)
           else if d_txn (getc w c) then (inl VUnit, wlog (setc w c (mkd true true (ins_sorted v (d_rows (getc w c))))) c 1)
-          else (inl VUnit, wlog (mkw (conns w) (ins_sorted v (committed w)) (sqllog w)) c 1)
+          else (inl VUnit, wlog (set_committed w (ins_sorted v (committed w))) c 1)
       | SSelect => (inl VUnit, wlog w c 2)
       end
   | IoFetch c => if d_open (getc w c) then (inl (VRows (visible w c)), w) else (inr EDead, w)
   | IoCommit c =>
       if negb (d_open (getc w c)) then (inr EDead, w)
-      else if d_txn (getc w c) then (inl VUnit, wlog (mkw (upd_nth c (mkd true false []) (conns w)) (d_rows (getc w c)) (sqllog w)) c 3)
+      else if d_txn (getc w c) then (inl VUnit, wlog (set_committed (setc w c (mkd true false [])) (d_rows (getc w c))) c 3)
       else (inl VUnit, w)
   | IoRollback c =>
       if negb (d_open (getc w c)) then (inr EDead, w)
@@ -129,7 +128,7 @@ Definition io_step (w : world) (i : io) : (val + exn) * world :=
    connect creates the sqlite connection and aiosqlite's _connect stops it again *)
 Definition io_cancel_step (w : world) (i : io) : world :=
   match i with
-  | IoConnect => mkw (conns w ++ [dead]) (committed w) (sqllog w)
+  | IoConnect => new_conn w dead
   | _ => snd (io_step w i)
   end.
 
@@ -337,6 +336,16 @@ Section Model.
                      mmod (fun s => set_cur_conn None (set_cur_fairy false s)) ;; pool_return ;; mmod (set_fo_rec false)
                    else munit).
 
+  (* the "except BaseException as e:" arm of _finalize_fairy *)
+  Definition finalize_except (is_gc has_rec : bool) (e : exn) : M :=
+    (if has_rec then rec_invalidate (negb is_gc) else munit) ;;
+    (if is_exception e then munit
+     else
+       (* /repo 51edfd0: the invalidated record goes back to the pool before the BaseException
+          propagates, so that its slot is not lost *)
+       mget (fun s => if has_rec && cur_fairy s then rec_checkin true else munit) ;;
+       mraise e).
+
   (* _finalize_fairy.  [is_gc]: called by the weakref callback (ref is not None, fairy is None,
      dbapi_connection is None, connection_record = cur); otherwise by fairy._checkin *)
   Definition finalize_fairy (is_gc twr : bool) : M :=
@@ -361,14 +370,7 @@ Section Model.
                     (if has_rec then fairy_detach else munit) ;;
                     (if can_close_or_terminate then close_connection (negb is_gc) c requires_terminate else munit)
                   else munit))
-                (fun e =>
-                   (if has_rec then rec_invalidate (negb is_gc) else munit) ;;
-                   (if is_exception e then munit
-                    else
-                      (* /repo 51edfd0: the invalidated record goes back to the pool before the
-                         BaseException propagates, so that its slot is not lost *)
-                      mget (fun s => if has_rec && cur_fairy s then rec_checkin true else munit) ;;
-                      mraise e)))
+                (finalize_except is_gc has_rec))
              (if detach && is_gc && dont_restore_gced then warn else munit)
        | None => munit
        end) ;;
@@ -465,22 +467,30 @@ Section Model.
 
   (* Connection._execute_context + _exec_single_context for one statement.
      [autobegin] is what "if self._transaction is None: self._autobegin()" does *)
+  Definition new_cursor : M :=
+    (* try: conn = self._dbapi_connection or self._revalidate_connection(); context = constructor(...)
+       except (PendingRollbackError, ResourceClosedError): raise
+       except BaseException as e: self._handle_dbapi_exception(e, ..., None, None) *)
+    mtry (mget (fun s => if c_fairy s then munit else revalidate) ;;
+          v <- the_conn ;;
+          match v with VConn c => await_ (IoCursor c) ;; mret (VConn c) | _ => mraise EInternal end)
+         (fun e => match e with
+                   | EPendingRollback | EResourceClosed => mraise e
+                   | _ => handle_dbapi_exception e None
+                   end).
+  (* _exec_single_context: do_execute + _setup_result_proxy (-> _soft_close for statements without rows) *)
+  Definition exec_single (c : nat) (st : stmt) : M :=
+    mtry (r <- cursor_execute c st ;;
+          (if returns_rows st then munit else cursor_close true c) ;;
+          mret r)
+         (fun e => handle_dbapi_exception e (Some c)).
   Definition execute_context (autobegin : M) (st : stmt) : M :=
-    v <- mtry (mget (fun s => if c_fairy s then munit else revalidate) ;;
-               v <- the_conn ;;
-               match v with VConn c => await_ (IoCursor c) ;; mret (VConn c) | _ => mraise EInternal end)
-              (fun e => match e with
-                        | EPendingRollback | EResourceClosed => mraise e
-                        | _ => handle_dbapi_exception e None
-                        end) ;;
+    v <- new_cursor ;;
     match v with
     | VConn c =>
         mget (fun s => match txn s with Some false => mraise EPendingRollback | _ => munit end) ;;
         mget (fun s => match txn s with None => autobegin | Some _ => munit end) ;;
-        mtry (r <- cursor_execute c st ;;
-              (if returns_rows st then munit else cursor_close true c) ;;      (* _setup_result_proxy -> _soft_close *)
-              mret r)
-             (fun e => handle_dbapi_exception e (Some c))
+        exec_single c st
     | _ => mraise EInternal
     end.
 
@@ -598,3 +608,8 @@ Section Model.
       end.
   End Prog.
 End Model.
+
+(* a freshly created engine: empty pool, no connection yet *)
+Definition init_pst (cf : cfg) : pst :=
+  mkpst [] (0 - psize cf) None None false false None 0 0 0 false [].
+Definition init_world : world := mkw (fun _ => dead) 0 [] [].
